@@ -112,6 +112,21 @@ def run(ctx):
         ops.append(f"tsdist|{int(plus1)}|{'-' if obsF is None else rat(obsF)}|{rows(m.tolist(), ints)}|{rows3(draws)}")
         meta.append(("tsdist", det, res))
     hazard_block(ctx)
+    # ---- overrides that no ratings matrix can produce (outside [0,1], infinite, NaN as read from a table with a missing entry):
+    #      still "the supplied obs_ts is the reference": geq counts the simulated values >= it (none are >= NaN)
+    for _ in range(ctx.n(60, 600)):
+        R_ = ctx.rng.randint(2, 5); Ns_ = ctx.rng.randint(1, 6); reps_ = ctx.rng.randint(1, 12)
+        m_ = np.array([[ctx.rng.randint(0, 1) for _ in range(Ns_)] for _ in range(R_)])
+        obs_, wantgeq = ctx.rng.choice([(float("nan"), 0), (np.float64("nan"), 0), (float("inf"), 0), (float("-inf"), reps_), (2.0, 0), (-0.5, reps_), (1.0000000000000002, 0)])
+        plus1_ = ctx.rng.random() < 0.5; sd_ = ctx.rng.randint(0, 10**6); c_ = 1 if plus1_ else 0
+        rk = guarded(irr.simulate_ts_dist, m_, obs_, reps_, True, sd_, plus1_); rn = guarded(irr.simulate_ts_dist, m_, obs_, reps_, False, sd_, plus1_)
+        ctx.case(("odd-override", m_.tobytes(), R_, Ns_, repr(obs_), reps_, plus1_), True); ctx.count("obs_ts-override-" + repr(float(obs_)))
+        okk = all(r_[0] == "ok" and int(r_[1]["geq"]) == wantgeq and (r_[1]["obs_ts"] == obs_ or (obs_ != obs_ and r_[1]["obs_ts"] != r_[1]["obs_ts"]))
+                  and close(r_[1]["pvalue"], Fr(wantgeq + c_, reps_ + c_)) for r_ in (rk, rn))
+        if not okk:
+            ctx.violation("oracle", {"call": "simulate_ts_dist", "ratings": m_.tolist(), "obs_ts": repr(obs_), "num_perm": reps_, "plus1": plus1_, "seed": sd_,
+                                     "issue": "the supplied obs_ts is not used as the reference (geq must count the simulated values >= it)",
+                                     "expected_geq": wantgeq, "keep_dist=True": str(rk[1:])[:300], "keep_dist=False": str(rn[1:])[:300]}, site="simulate_ts_dist")
     # ---- a ratings buffer refilled in place between two calls: second result as on a fresh array
     for _ in range(ctx.n(40, 400)):
         R_ = ctx.rng.randint(2, 5); Ns_ = ctx.rng.randint(1, 6)
